@@ -74,10 +74,29 @@ def _arg_arrangements(maxlen):
     return out
 
 
+
+
+def _param_shapes():
+    """Every shape of a parameter list (each of positional-only / plain / vararg or bare star / keyword-only / kwarg absent or
+    present, with and without default), as a def and as a lambda: which parts exist decides whether the arguments node counts."""
+    import itertools
+    out = []
+    for po, pl, va, ko, kw in itertools.product(('', 'p, /', 'p=1, /'), ('', 'a', 'a=2'), ('', '*', '*v'), ('', 'k', 'k=3'), ('', '**w')):
+        src = ', '.join(x for x in (po, pl, va, ko, kw) if x)
+        for prog in (f'def f({src}): pass', f'l = lambda {src}: 0' if src else 'l = lambda: 0'):
+            try:
+                ast.parse(prog)
+            except SyntaxError:
+                continue
+            out.append(prog)
+    return out
+
+
 ARGS4 = _arg_arrangements(4)
+PARAMS = _param_shapes()
 PROGS = BASE + EXTRA + TRICKY
 N_HAND = len(PROGS)
-PROGS = PROGS + ARGS4
+PROGS = PROGS + ARGS4 + PARAMS
 for _p in PROGS[:N_HAND]:
     ast.parse(_p)
 
